@@ -252,14 +252,14 @@ def run_c18(ctx):
                         deadlock_check=False, timeout=2400, workers=1)
     # every named deviation of the model must break the design-level invariants (vacuity of the invariants)
     f_def = {d: pool.submit(ctx.tlc, SPEC, "MC_Drops_%s.cfg" % d, module="MC_Drops", timeout=1200, workers=2, expect_fail=True, deadlock_check=False)
-             for d in ("SwallowFull", "DoubleUnhandled", "CountTwice")}
+             for d in ("SwallowFull", "DoubleUnhandled", "CountTwice", "BatchFirstSender")}
 
     def stress():
         trace = ctx.tmp("trace-dlstress.ndjson")
         p = ctx.run([exe, "dl-stress", str(40 if quick else 600), str(ctx.seed), trace, str(port + 1)], timeout=3000, env=env)
         rs = json.loads(p.stdout.strip().splitlines()[-1])
         mm, nl = monitor(ctx, SPEC, "Mon_Drops", trace, "stress", pid)
-        return "stress (3-6 concurrent senders of all kinds, capacity 2-8)", trace, rs, mm, nl, None
+        return "stress (3-6 concurrent senders of all kinds incl. Request envelopes and two-sender batches, capacity 2-8)", trace, rs, mm, nl, None
 
     futs = [pool.submit(stress)]
     exh = vlib.parse_sim_behaviours(f_exh.result().out)
@@ -293,7 +293,7 @@ def run_c18(ctx):
         cov = {"states": st, "transitions": tr, "traces_validated_against_impl": tot["hist"],
                "samples": [[[o["op"], o["snd"], o["rcv"], o["unh"]] for o in b] for b in (behaviours[0], behaviours[len(sel) // 2], behaviours[-1])],
                "evaluations": tot["hist"], "distinct_nontrivial": len({json.dumps(b) for b in behaviours if nontrivial(b)}),
-               "rule": "executions = sampled operation histories of length D over {Tell(S|N, handled|Unhandled), RemoteTell(T|missing), Batch(1|2), "
+               "rule": "executions = sampled operation histories of length D over {Tell / Ask / ctx.Request envelope (from an actor, without sender), handled|Unhandled, RemoteTell(T|missing), failed batches of 1-3 members from two senders, "
                        "Finish, Stop, Query} (TLC BFS) + TLC random walks of depth 14 on a real actor system (capacity-2 non-blocking mailbox, "
                        "handler held by the harness), each closed by releasing everything and a count query; plus free-running concurrent "
                        "senders; non-trivial = a handler completion and >= 2 deliveries to the target",
@@ -327,6 +327,27 @@ def run_c18(ctx):
 
 
 # ------------------------------------------------------------------------------------------------ C16
+def reenable_witnesses(maxf):
+    """Fixed walks of Request.tla (too long for the BFS depth, rare in random walks): requests in flight across a
+    DisableReentrancy -> EnableReentrancy cycle must keep their state and complete exactly once (reply / timeout / cancel)."""
+    def send(i, op, mode="", tmo=False, th="", rq=0):
+        return {"a": "Send", "id": i, "op": op, "mode": mode, "tmo": tmo, "th": th, "rq": rq, "err": ""}
+    fin = {"a": "Finish", "id": 0, "op": "", "mode": "", "tmo": False, "th": "", "rq": 0, "err": ""}
+    def act(a, rq):
+        return {"a": a, "id": 0, "op": "", "mode": "", "tmo": False, "th": "", "rq": rq, "err": ""}
+    out = []
+    for mode, tmo, end in (("allow", False, "Reply"), ("allow", True, "TimeoutFire"), ("default", False, "Cancel"), ("allow", False, "Cancel")):
+        out.append([send(1, "req", mode, tmo, "now"), fin, send(2, "disable"), send(3, "plain"), fin, fin, send(4, "req", "default", False, "now"), fin,
+                    send(5, "enable"), fin, act(end, 1), send(6, "plain"), fin])
+    if maxf != 1:
+        # with a StashNonReentrant request in flight as well: the enable command itself is held in the stash until that
+        # request completes; the AllowAll request stays in flight across the whole cycle
+        for end in ("Reply", "Cancel"):
+            out.append([send(1, "req", "allow", False, "now"), fin, send(2, "disable"), fin, send(3, "req", "stash", False, "now"), fin,
+                        send(4, "enable"), send(5, "plain"), act("Reply", 2), fin, fin, act(end, 1), send(6, "plain"), fin])
+    return out
+
+
 def run_c16(ctx):
     pid, SPEC, quick, rng = "C16", "Reentrancy", ctx.quick, ctx.rng
     exe = ctx.build("askreentr")
@@ -335,7 +356,7 @@ def run_c16(ctx):
     f_mc = [pool.submit(ctx.tlc_must_hold, SPEC, cfg, module="MC_Request", timeout=2400, workers=4, deadlock_check=False)
             for cfg in (("MC_Request.cfg", "MC_Request_u.cfg") if quick else ("MC_Request.cfg", "MC_Request_u.cfg", "MC_Request_t.cfg"))]
     f_def = {d: pool.submit(ctx.tlc, SPEC, "MC_Request_%s.cfg" % d, module="MC_Request", timeout=1200, workers=2, expect_fail=True, deadlock_check=False)
-             for d in ("NoUnblock", "NoUnstash", "CallbackTwice", "LimitOffByOne")}
+             for d in ("NoUnblock", "NoUnstash", "CallbackTwice", "LimitOffByOne", "FreshOnEnable")}
     f_exh = pool.submit(ctx.tlc, SPEC, "Gen_Request.cfg" if quick else "Gen_Request_t.cfg", module="Gen_Request", deadlock_check=False, timeout=2400, workers=2)
     sims = {mf: pool.submit(ctx.tlc, SPEC, cfg, module="Gen_Request", simulate="num=%d" % (60 if quick else 1500), depth=24, deadlock_check=False,
                             timeout=2400, workers=1, name="sim-%d" % mf)
@@ -368,7 +389,7 @@ def run_c16(ctx):
         sim = vlib.parse_sim_behaviours(f.result().out)
         if len(sim) < (50 if quick else 1000):
             raise vlib.Infra("too few random walks for MaxInFlight=%d (%d)" % (mf, len(sim)))
-        beh = sim + (vlib.sample(rng, exh, 1200 if quick else len(exh)) if mf == 1 else [])
+        beh = sim + (vlib.sample(rng, exh, 1200 if quick else len(exh)) if mf == 1 else []) + reenable_witnesses(mf)
         allb += beh
         samples.append([[o["a"], o["op"], o["mode"], o["rq"]] for o in beh[0]])
         futs.append(pool.submit(replay, "replay MaxInFlight=%d (%d random walks%s)" % (mf, len(sim), " + %d histories of length %d" % (len(beh) - len(sim), len(exh[0])) if mf == 1 else ""),
